@@ -67,6 +67,17 @@ def run(ctx):
         leaves = [x for x in ast.walk(dt) if isinstance(x, ast.ListComp) and ("is_atomic" in norm(x) or "not node.states" in norm(x) or "is_final" in norm(x))]
         c.ob("R7", bool(leaves), rh, "deep-restores-leaves", "deep history restores the remembered leaves" if leaves else
              "the deep-history branch no longer selects the remembered leaf states", dt)
+        from sa.util import canon_atom as _ca7
+        for lf in leaves:
+            var7 = norm(lf.generators[0].target)
+            conds = lf.generators[0].ifs
+            cond = conds[0] if len(conds) == 1 else None
+            parts = cond.values if isinstance(cond, ast.BoolOp) and isinstance(cond.op, ast.Or) else ([cond] if cond is not None and not isinstance(cond, ast.BoolOp) else [])
+            sh = {_ca7(x_) for x_ in parts}
+            covers = ("truthy", f"{var7}.states", "", False) in sh or {("truthy", f"{var7}.is_atomic", "", True), ("truthy", f"{var7}.is_final", "", True)} <= sh
+            c.ob("R7", covers, rh, "deep-leaf-test-covers-final-states", "every remembered state without children counts as a leaf (atomic and final alike)" if covers else
+                 f"the leaf test '{norm(cond) if cond is not None else conds}' of the deep-history branch does not cover every childless state: 'is_atomic' is "
+                 f"type == \"atomic\", so a remembered *final* leaf is dropped and its region falls back to the initial child", lf)
     hparam = rh.params[1]
     shallow = [x for x in own_nodes(rh.node) if isinstance(x, ast.ListComp) and any(
         isinstance(y, ast.Compare) and isinstance(y.ops[0], (ast.Is, ast.Eq)) and ".parent" in norm(y.left) for cnd in x.generators[0].ifs for y in [cnd])]
